@@ -3,6 +3,26 @@ import TacklerModel.Lemmas.MapMS
 import TacklerModel.Lemmas.HashVectors
 /-!
 # C09 — audit mode: UUIDs enforced; the set checksum is the specified hash of the set
+
+Statement (properties.jsonl): in audit mode a journal is accepted only if every transaction carries a
+UUID, and producing a transaction set fails if two selected transactions share one; the reported set
+checksum is the configured hash of the selected transactions' canonical lower-case UUIDs, sorted, each
+followed by a newline, and the size is the number selected; hence it is invariant under reordering and
+differs whenever the selected set differs; the account-selector checksum is the same construction
+over the sorted selector patterns.
+
+| clause                                   | theorems                                                                     |
+|------------------------------------------|------------------------------------------------------------------------------|
+| UUID required in audit mode              | `audit_requires_uuid`, `audit_rejects_txn`, `audit_requires_uuid_journal`, `audit_requires_uuid_load`, `audit_rejects_journal` |
+| duplicates ⇒ no set                      | `dup_rejected`, `dup_rejected_set`, `filter_outcome` (exactly when), `missing_uuid_rejected` |
+| checksum = H(sorted lower-case UUIDs ‖ "\n"), size | `calcTxnChecksum_spec`, `checksum_def`, `checksum_def_all`, `audit_set` (load + filter end to end), `audit_off_no_checksum` |
+| invariant under reordering               | `sortStrings_perm_eq`, `checksum_perm`, `set_checksum_perm`                     |
+| differs whenever the set differs         | `preimage_injective` (+ `_bytes`, `_fixed`): the hashed message determines the UUID multiset; `equal_checksum_is_collision`: otherwise an explicit hash collision is exhibited.  Collision resistance itself is a cryptographic assumption. |
+| selector checksum                        | `peel_wrap`, `selector_checksum`, `selector_checksum_empty`, `selector_checksum_perm`, `selector_preimage_injective`, `selector_newline_witness`, `acc_sel_checksum_audit` |
+| algorithms                               | `ofName_name`, `ofName_some`; known-answer tests in `Lemmas/HashVectors.lean`    |
+
+`H` is the executable Lean implementation of the five digests (`Model/Hash.lean`); a *filter* is any
+predicate `Txn → Bool`; `preimage` below is the specification of the hashed message.
 -/
 namespace Tackler
 namespace C09
@@ -479,6 +499,47 @@ theorem set_checksum_perm (hash : Option Algo) (tf : Txn → Bool) (a b : List T
 
 /-! ## 5. the hashed message determines the set -/
 
+/-- `str::as_bytes` is the concatenation of the UTF-8 encodings of the characters -/
+theorem strBytes_eq (s : String) : strBytes s = s.toList.flatMap String.utf8EncodeChar := by
+  unfold strBytes String.toUTF8
+  conv => lhs; rw [← String.ofList_toList (s := s), String.toByteArray_ofList]
+  simp [List.utf8Encode]
+
+theorem ofNat_eq_ten (n : Nat) (h : (10 : UInt8) = UInt8.ofNat n) : n % 256 = 10 := by
+  have := congrArg UInt8.toNat h
+  simpa using this.symm
+
+/-- the byte `0x0a` occurs in the UTF-8 encoding of a character only for the newline character -/
+theorem nl_in_char (c : Char) : (0x0a : UInt8) ∈ String.utf8EncodeChar c ↔ c = '\n' := by
+  constructor
+  · intro h
+    unfold String.utf8EncodeChar at h
+    simp only at h
+    split at h
+    · simp only [List.mem_cons, List.not_mem_nil, or_false] at h
+      have := ofNat_eq_ten _ h
+      apply Char.ext
+      apply UInt32.toNat_inj.mp
+      show c.val.toNat = 10
+      omega
+    · exfalso
+      split at h
+      · simp only [List.mem_cons, List.not_mem_nil, or_false] at h
+        rcases h with h | h <;> (have := ofNat_eq_ten _ h; omega)
+      · split at h
+        · simp only [List.mem_cons, List.not_mem_nil, or_false] at h
+          rcases h with h | h | h <;> (have := ofNat_eq_ten _ h; omega)
+        · simp only [List.mem_cons, List.not_mem_nil, or_false] at h
+          rcases h with h | h | h | h <;> (have := ofNat_eq_ten _ h; omega)
+  · rintro rfl; decide
+
+theorem nl_in_strBytes (s : String) : (0x0a : UInt8) ∈ strBytes s ↔ '\n' ∈ s.toList := by
+  rw [strBytes_eq, List.mem_flatMap]
+  constructor
+  · rintro ⟨c, hc, h⟩; rw [(nl_in_char c).mp h] at hc; exact hc
+  · intro h; exact ⟨'\n', h, (nl_in_char '\n').mpr rfl⟩
+
+
 /-- items of one fixed width: the fed message determines the item list (any separator) -/
 theorem fed_injective_fixed (w : Nat) (sep : Bytes) : ∀ (xs ys : List String),
     (∀ x ∈ xs, (strBytes x).length = w) → (∀ y ∈ ys, (strBytes y).length = w) → sep ≠ [] →
@@ -547,17 +608,24 @@ theorem fed_injective_nl : ∀ (xs ys : List String),
       rw [strBytes_inj x y h1, ih u (fun a ha => hx a (List.mem_cons_of_mem _ ha))
         (fun a ha => hy a (List.mem_cons_of_mem _ ha)) h2]
 
-/-- **preimage_injective**: for UUID texts free of newlines (canonical UUIDs are 36 characters from
-    `0-9a-f-`), equal hashed messages ⇒ equal multisets of selected UUIDs.  Together with collision
-    resistance of the hash – a cryptographic assumption, not a theorem – this is "the checksum differs
-    whenever the selected set differs". -/
-theorem preimage_injective (a b : List Txn)
+/-- byte-level form of `preimage_injective` -/
+theorem preimage_injective_bytes (a b : List Txn)
     (ha : ∀ u ∈ uuidsOf a, (0x0a : UInt8) ∉ strBytes u) (hb : ∀ u ∈ uuidsOf b, (0x0a : UInt8) ∉ strBytes u)
     (h : preimage a = preimage b) : (uuidsOf a).Perm (uuidsOf b) := by
   have hs : sortStrings (uuidsOf a) = sortStrings (uuidsOf b) :=
     fed_injective_nl _ _ (fun x hx => ha x ((sortStrings_perm _).mem_iff.mp hx))
       (fun x hx => hb x ((sortStrings_perm _).mem_iff.mp hx)) h
   exact ((sortStrings_perm _).symm.trans (hs ▸ List.Perm.refl _)).trans (sortStrings_perm _)
+
+/-- **preimage_injective**: for UUID texts without a newline character (canonical UUIDs are 36 characters
+    from `0-9a-f-`), equal hashed messages ⇒ equal multisets of selected UUIDs.  Together with collision
+    resistance of the hash – a cryptographic assumption, not a theorem – this is "the checksum differs
+    whenever the selected set differs". -/
+theorem preimage_injective (a b : List Txn)
+    (ha : ∀ u ∈ uuidsOf a, '\n' ∉ u.toList) (hb : ∀ u ∈ uuidsOf b, '\n' ∉ u.toList)
+    (h : preimage a = preimage b) : (uuidsOf a).Perm (uuidsOf b) :=
+  preimage_injective_bytes a b (fun u hu hn => ha u hu ((nl_in_strBytes u).mp hn))
+    (fun u hu hn => hb u hu ((nl_in_strBytes u).mp hn)) h
 
 /-- the fixed-width form (the one sketched in DESIGN.md) -/
 theorem preimage_injective_fixed (w : Nat) (a b : List Txn)
@@ -624,11 +692,11 @@ theorem selector_checksum_perm (kind : SelectorKind) (alg : Algo) (a b : List St
 /-- newline-free patterns: the hashed message determines the multiset of patterns.  (A pattern may
     contain a literal newline; then `["a\nb"]` and `["a", "b"]` are hashed alike, see the example below.) -/
 theorem selector_preimage_injective (a b : List String)
-    (ha : ∀ p ∈ a, (0x0a : UInt8) ∉ strBytes p) (hb : ∀ p ∈ b, (0x0a : UInt8) ∉ strBytes p)
+    (ha : ∀ p ∈ a, '\n' ∉ p.toList) (hb : ∀ p ∈ b, '\n' ∉ p.toList)
     (h : fed (sortStrings a) [0x0a] = fed (sortStrings b) [0x0a]) : a.Perm b := by
   have hs : sortStrings a = sortStrings b :=
-    fed_injective_nl _ _ (fun x hx => ha x ((sortStrings_perm _).mem_iff.mp hx))
-      (fun x hx => hb x ((sortStrings_perm _).mem_iff.mp hx)) h
+    fed_injective_nl _ _ (fun x hx hn => ha x ((sortStrings_perm _).mem_iff.mp hx) ((nl_in_strBytes x).mp hn))
+      (fun x hx hn => hb x ((sortStrings_perm _).mem_iff.mp hx) ((nl_in_strBytes x).mp hn)) h
   exact ((sortStrings_perm _).symm.trans (hs ▸ List.Perm.refl _)).trans (sortStrings_perm _)
 
 /-- printed exactly in audit mode -/
@@ -691,7 +759,7 @@ theorem hex_inj (a b : Bytes) (h : hex a = hex b) : a = b :=
     statement that nobody can exhibit such a pair; it is a cryptographic assumption, not a theorem. -/
 theorem equal_checksum_is_collision (alg : Algo) (a b : List Txn) (ca cb : Checksum)
     (ha : calcTxnChecksum a alg = .ok ca) (hb : calcTxnChecksum b alg = .ok cb)
-    (hna : ∀ u ∈ uuidsOf a, (0x0a : UInt8) ∉ strBytes u) (hnb : ∀ u ∈ uuidsOf b, (0x0a : UInt8) ∉ strBytes u)
+    (hna : ∀ u ∈ uuidsOf a, '\n' ∉ u.toList) (hnb : ∀ u ∈ uuidsOf b, '\n' ∉ u.toList)
     (hne : ¬ (uuidsOf a).Perm (uuidsOf b)) (heq : ca.value = cb.value) :
     preimage a ≠ preimage b ∧ alg.digest (preimage a) = alg.digest (preimage b) := by
   refine ⟨fun h => hne (preimage_injective a b hna hnb h), ?_⟩
@@ -773,7 +841,7 @@ example : ∃ s, TxnData.filter (some .sha512) (fun t => t.header.ts.ns == 2) [t
   exact ⟨_, rfl⟩
 
 /-- canonical UUID texts satisfy the hypotheses of `preimage_injective` (no newline; 36 bytes wide) -/
-example : ∀ u ∈ uuidsOf [txn 1 (some u1U), txn 2 (some u3)], (0x0a : UInt8) ∉ strBytes u ∧ (strBytes u).length = 36 := by
+example : ∀ u ∈ uuidsOf [txn 1 (some u1U), txn 2 (some u3)], '\n' ∉ u.toList ∧ (strBytes u).length = 36 := by
   decide
 
 /-- selector patterns: the already-wrapped `^(?:e.*)$` is hashed as written; order does not matter -/
